@@ -715,11 +715,18 @@ impl Exec {
             }
             Op::RtJson => match rt_json(&self.w) {
                 Ok(w2) => self.w = w2,
-                Err(e) => chk.fail(Prop::C06, "roundtrip-failed enc=json", e),
+                Err(e) => {
+                    // serialize + deserialize is one of the operations after which the world must hold the model's contents
+                    chk.fail(Prop::C01, "roundtrip-failed enc=json", e.clone());
+                    chk.fail(Prop::C06, "roundtrip-failed enc=json", e);
+                }
             },
             Op::RtTok { human } => match rt_tok(&self.w, human) {
                 Ok(w2) => self.w = w2,
-                Err(e) => chk.fail(Prop::C06, &format!("roundtrip-failed enc=tok-{}", if human { "hr" } else { "compact" }), e),
+                Err(e) => {
+                    chk.fail(Prop::C01, &format!("roundtrip-failed enc=tok-{}", if human { "hr" } else { "compact" }), e.clone());
+                    chk.fail(Prop::C06, &format!("roundtrip-failed enc=tok-{}", if human { "hr" } else { "compact" }), e);
+                }
             },
             Op::ResSet(v) => {
                 let (n0, n1) = (comp::fresh_val(), comp::fresh_val());
